@@ -11,13 +11,13 @@ RULE = ('two generation modes: (a) geographic positions as in C01 -> geo2grid ->
         '|dlon|=30deg inside the accepted range, latitudes >= 1e-6 deg inside the band) -> grid2geo compared with the '
         'tm_exact inverse, -> geo2grid closure <= 0.2 mm, mirrored coordinate in the other hemisphere, and the '
         'stand-alone mga2gda.grid2geo for southern UTM/GRS80; non-trivial = valid coordinate of the quantified domain '
-        '(decided by the oracle; rejected ones are counted, not judged); distinct = class buckets')
+        '(decided by the oracle; rejected ones are counted, not judged); 3 % of the cases are preceded by one or two calls the property does not speak about (latitude/longitude/zone outside the accepted ranges, NaN, strings, invalid hemisphere words): not judged, exceptions swallowed, the judged call after them must be as right as ever.  distinct = class buckets')
 ASSUMPTIONS = ['tm_exact oracle (self-validated each shard)',
                '"within 2e-9 degrees" is read as angular distance on the ground hypot(dlat, dlon*cos lat) (DESIGN.md C02)',
                'mirror latitudes/longitudes may differ by one unit of the 11-decimal output rounding (1.5e-11 deg)']
 N = {'quick': 1500, 'thorough': 25000}
 SHARDS = {'quick': 16, 'thorough': 32}
-REQUIRED_COUNTERS = ['across_antimeridian_cases', 'alias_sequences', 'near_axis_cases', 'roundtrip_geo', 'roundtrip_grid', 'mirror', 'standalone']
+REQUIRED_COUNTERS = ['unjudged_calls_before_a_judged_one', 'across_antimeridian_cases', 'alias_sequences', 'near_axis_cases', 'roundtrip_geo', 'roundtrip_grid', 'mirror', 'standalone']
 
 
 def plan(tier, seed):
@@ -46,10 +46,14 @@ def run_shard(spec, ctx):
             ctx.sample({'kind': '1x1 degree lattice x 3 zone modes', 'part': spec['lattice'], 'ell': spec['ell']})
         for i in range(spec['n']):
             case = tmwork.gen_geo_case(rnd, coordapi=False)
+            if rnd.random() < 0.03:
+                case['before'] = tmwork.gen_unjudged_calls(rnd)
             if i < 1:
                 ctx.sample(case)
             _one(ns, ctx, case)
             case = tmwork.gen_grid_case(rnd)
+            if rnd.random() < 0.03:
+                case['before'] = tmwork.gen_unjudged_calls(rnd)
             if rnd.random() < 0.25:
                 # dedicated share for the stand-alone converter's domain
                 case['ell'], case['prj'], case['hemi'] = 'grs80', 'utm', 'south'
